@@ -234,6 +234,10 @@ pub enum Phase {
     Base(PointR, u8, Vec<ScalarR>),
     /// w.scalar(k) then .base(P) for each P
     Scalar(ScalarR, Vec<PointR>),
+    /// w.base(P, n) again for the base of the most recent phase (other n, hence possibly another window)
+    BaseAgain(u8, Vec<ScalarR>),
+    /// w.scalar(k) again for the scalar of the most recent scalar phase, then .base(P) for each P
+    ScalarAgain(Vec<PointR>),
 }
 
 #[derive(Clone, Debug, Serialize, Deserialize, PartialEq, Eq, Hash)]
@@ -246,6 +250,8 @@ fn history_strategy() -> BoxedStrategy<History> {
     let phase = prop_oneof![
         (point_strategy(false), 0u8..8, proptest::collection::vec(scalar_strategy(), 0..4)).prop_map(|(p, n, ks)| Phase::Base(p, n, ks)),
         (scalar_strategy(), proptest::collection::vec(point_strategy(false), 0..4)).prop_map(|(k, ps)| Phase::Scalar(k, ps)),
+        (0u8..8, proptest::collection::vec(scalar_strategy(), 1..4)).prop_map(|(n, ks)| Phase::BaseAgain(n, ks)),
+        proptest::collection::vec(point_strategy(false), 1..4).prop_map(Phase::ScalarAgain),
     ];
     (0u8..2, proptest::collection::vec(phase, 1..8)).prop_map(|(group, phases)| History { group, phases }).boxed()
 }
@@ -259,9 +265,24 @@ where
     let mut results = 0usize;
     let mut kinds = (false, false);
     let mut windows = std::collections::BTreeSet::new();
-    for (pi, ph) in h.phases.iter().enumerate() {
-        match ph {
+    let mut last_base: PointR = PointR::Gen;
+    let mut last_scalar: ScalarR = ScalarR::One;
+    for (pi, ph0) in h.phases.iter().enumerate() {
+        let ph = match ph0 {
+            Phase::BaseAgain(n, ks) => {
+                info.class("history:same-base-again-other-n");
+                Phase::Base(last_base.clone(), *n, ks.clone())
+            }
+            Phase::ScalarAgain(ps) => {
+                info.class("history:same-scalar-again");
+                Phase::Scalar(last_scalar.clone(), ps.clone())
+            }
+            other => other.clone(),
+        };
+        match &ph {
+            Phase::BaseAgain(_, _) | Phase::ScalarAgain(_) => unreachable!(),
             Phase::Base(p, nsel, ks) => {
+                last_base = p.clone();
                 kinds.0 = true;
                 let pm = p.build::<G>();
                 let pp = proj_c::<G>(&pm);
@@ -282,6 +303,7 @@ where
                 }
             }
             Phase::Scalar(k, ps) => {
+                last_scalar = k.clone();
                 kinds.1 = true;
                 let kz = k.build255();
                 windows.insert(G::Proj::recommended_wnaf_for_scalar(repr(&kz)));
